@@ -127,6 +127,7 @@ var elKinds = []elKind{
 	{name: "type-error-range", phase: 'r', errKinds: []string{"typeErr"}, cause: "typeErr",
 		variants: vs("{% for zi in (1..zs) %}a{% endfor %}", "{% for zi in (zs..3) %}\na\n{% endfor %}", "{%- tablerow zi in (1..zs) -%}a{% endtablerow %}", "{% for zi in\n (1..zs) %}a{% else %}b{% endfor %}")},
 	// a render-time failure of the expression of an elsif/when clause: the innermost failing tag is the clause
+	// (found by this stream: the real code located it at the if/case tag; fixed by 6be7c7e)
 	{name: "clause-render-error", phase: 'r', errKinds: []string{"filterErr", "undefinedFilter", "typeErr"}, cause: "*nonnil",
 		variants: vs("{% if zf %}a@@{% elsif 1 | divided_by: 0 %}b{% endif %}", "{% if zf %}\na\n@@{% elsif 1 | zqfilter %}\nb\n{% endif %}", "{% case 1 %}\n{% when 2 %}x\n@@{% when (1..zs) %}\ny{% endcase %}",
 			"{% if zf %}\n\n{% elsif zf %}\n@@{%- elsif (1..zs) contains 1 -%}{% else %}\n{% endif %}", "{% unless zt %}\n{% else %}{% if zf %}\n\n@@{% elsif '%zz' | url_decode %}{% endif %}\n{% endunless %}",
@@ -532,14 +533,6 @@ func errlocCase(r *Run, cl string, cfg engineCfg, path string, start int, src st
 		want = []string{parts[2]}
 	}
 	viol := func(clause, detail string) {
-		if k.name == "clause-render-error" && clause == "line" {
-			// a known finding (known_findings.json): counted in full, but only a few are listed so that
-			// they cannot crowd other violations out of the bounded list
-			r.Count("known-finding:clause-render-error-line")
-			if r.Stats.Hist["known-finding:clause-render-error-line"] > 10 {
-				return
-			}
-		}
 		r.Violate("C07", clause, cl, fmt.Sprintf("%s at offset %d of %q (path %q, start line %d): %s", k.name, off, short(src, 400), path, start, detail))
 	}
 	switch {
